@@ -1375,5 +1375,19 @@ seed("c04-limiter-asked-before-read", "C04", "R-toolong-no-partial", "conn.go",
 	}
 	return c.text.ReadLine()""", "the limiter is consulted before the read instead of after it")
 
+seed("c07-bdat-reader-wrapped", "C07", "R-bdat-reader-is-the-pipe", "conn.go",
+"""				err = session.Data(r)
+			} else {
+				lmtpSession, ok := session.(LMTPSession)""", """				err = session.Data(io.LimitReader(r, 1<<40))
+			} else {
+				lmtpSession, ok := session.(LMTPSession)""", "the backend reads a wrapper around the pipe")
+seed("c01-budget-from-announced-size", "C01", "R-limit-not-early", "data.go",
+"""		dr.n = int64(c.server.MaxMessageBytes)""", """		dr.n = int64(c.server.MaxMessageBytes)
+		if c.bytesReceived > 0 && c.bytesReceived < dr.n {
+			dr.n = c.bytesReceived
+		}""", "the reader's budget comes from something else than the configured maximum")
+seed("c17-chunk-error-replaced", "C17", "R-chunk-error-kept", "conn.go",
+"""	if err == nil && n != int64(size) {""", """	if _, rejected := err.(*SMTPError); n != int64(size) && !rejected {""", "a backend's plain error is reported as unexpected EOF")
+
 json.dump(S, open(os.path.join(os.path.dirname(os.path.abspath(__file__)), "bank.json"), "w"), indent=1)
 print(len(S), "seeds")
